@@ -357,7 +357,11 @@ def lean_obligations(chk, props_rel, tie=None, extra_targets=None):
     """Everything on the Lean side for one property:
        props_rel : e.g. 'BdModel/Props/C14.lean' (ends with #print axioms lines)
        tie       : {Area: [names of tie theorems this property depends on]}"""
-    tie = tie or {}
+    tie = dict(tie or {})
+    # the assembly path every property's end-to-end behaviour goes through (command line -> loader -> agent -> client ->
+    # stores / sockets / server wiring): one skeleton per file, tied by every check
+    if os.path.exists(os.path.join(LEAN, "BdModel", "Tie", "Glue.lean")):
+        tie.setdefault("Glue", None)
     # one check at a time between the extraction from ITS tree and the elaboration of the ties against it
     with Lock("lean-phase"):
         return _lean_obligations(chk, props_rel, tie, extra_targets)
